@@ -1,1 +1,268 @@
-/-! # C18 — property theorems (stub: not built yet) -/
+import PymocaVerif.Lemmas.VecExpandResidual
+/-!
+# C18 — vector expansion is a faithful renaming to scalars
+
+Property theorems about `PymocaVerif.Model.VecExpand` (the model of `Model._expand_vectors`).
+Helper lemmas live in `Lemmas/VecExpand.lean`.
+-/
+namespace PymocaVerif.VecExpand
+
+/-! ## Index enumeration -/
+
+/-- `np.ndindex` order: the tuples of `ndindex ds` are exactly the in-range tuples, there are
+    `prod ds` of them and tuple `idx` sits at its row-major rank (so each occurs once). -/
+theorem ndindex_rowmajor (ds idx : List Nat) :
+    (ndindex ds).length = prod ds ∧
+    (InRange ds idx → (ndindex ds)[ravel ds idx]? = some idx) ∧
+    (idx ∈ ndindex ds ↔ InRange ds idx) := by
+  refine ⟨ndindex_length ds, ?_, ?_⟩
+  · intro h
+    have hlt := ravel_lt ds idx h
+    rw [List.getElem?_eq_getElem (by rw [ndindex_length]; exact hlt), ndindex_getElem, unravel_ravel ds idx h]
+  · constructor
+    · intro h
+      simp only [ndindex, List.mem_map, List.mem_range] at h
+      obtain ⟨k, hk, e⟩ := h
+      rw [← e]; exact unravel_inRange ds k hk
+    · intro h
+      simp only [ndindex, List.mem_map, List.mem_range]
+      exact ⟨ravel ds idx, ravel_lt ds idx h, unravel_ravel ds idx h⟩
+
+example : InRange [2, 3] [1, 2] ∧ ravel [2, 3] [1, 2] = 5 ∧ ndindex [2, 2] = [[0, 0], [0, 1], [1, 0], [1, 1]] :=
+  ⟨by simp [InRange], by decide, by decide⟩
+
+/-! ## The substitution value -/
+
+/-- The arithmetic identity behind `reshape(vertcat(elements), reversed(shape)).T` under
+    column-major storage: for a symbol of shape `(r, c)` the value has that shape and its entry
+    `(i, j)` is the element created `(i·c + j)`-th, i.e. in row-major order. -/
+theorem subst_entry {α} [Inhabited α] (r c : Nat) (elems : List α) (i j : Nat) (hi : i < r) (hj : j < c) :
+    (substValue r c elems).rows = r ∧ (substValue r c elems).cols = c ∧
+    (substValue r c elems).entry i j = elems.getD (i * c + j) default := by
+  refine ⟨rfl, rfl, ?_⟩
+  show (substValue r c elems).data.getD (i + j * r) default = _
+  rw [substValue_data, getD_map_range _ _ _ _ (lin_lt hi hj), lin_div hi, lin_mod hi, Nat.add_comm]
+
+example : (substValue 2 3 [10, 11, 12, 20, 21, 22]).entry 1 2 = 22 ∧
+    (substValue 2 3 [10, 11, 12, 20, 21, 22]).data = [10, 20, 11, 21, 12, 22] := by decide
+
+/-- `value[i, j]` is the symbol named `x[i+1, j+1]`, for every variable shape: at the storage
+    position of element `idx` of the unexpanded symbol (column-major for 1-D/2-D, the raveled
+    column of `_MTensor` beyond) the substitution value holds the scalar named with `idx`. -/
+theorem subst_entry_named (d : Decl) (idx : List Nat) (hne : d.dims ≠ []) (h : InRange d.dims idx) :
+    (substValue (mxShape d.dims).1 (mxShape d.dims).2 d.names).data.getD (elemPos d.dims idx) default
+      = d.scalar idx := by
+  obtain ⟨hlt, hpos⟩ := pos_lemma d.dims idx hne h
+  rw [substValue_data, getD_map_range _ _ _ _ (by rw [Nat.mul_comm]; exact hlt), hpos]
+  have hr := ravel_lt _ _ h
+  simp only [Decl.names, ndindex, List.map_map]
+  rw [getD_map_range _ _ _ _ hr]
+  simp [unravel_ravel _ _ h]
+
+/-! ## Names -/
+
+/-- Within one variable the name determines the index tuple (no two scalars share a name). -/
+theorem names_injective (d : Decl) (hp : d.parts.length = d.ms.length) (i1 i2 : List Nat)
+    (h1 : i1.length = d.dims.length) (h2 : i2.length = d.dims.length)
+    (h : d.scalar i1 = d.scalar i2) : i1 = i2 := by
+  simp only [Decl.scalar, scalarNameP, List.append_assoc] at h
+  have h' := List.append_cancel_left h
+  have hn := need_zip d.parts d.ms hp
+  exact (dotJoin_nameLevels_inj _ i1 i2 _ _ (by rw [hn]; exact h1) (by rw [hn]; exact h2) h').1
+
+/-- Stripping the bracket groups of a scalar's name gives back the variable's name. -/
+theorem name_strips_to_variable (d : Decl) (hp : d.parts.length = d.ms.length)
+    (hpre : NoBr d.pre) (hpost : NoBr d.post) (hparts : ∀ p ∈ d.parts, NoBr p) (idx : List Nat) :
+    unbr false (d.scalar idx) = d.pre ++ dotJoin d.parts ++ d.post := by
+  simp only [Decl.scalar, scalarNameP, List.append_assoc]
+  have hpo : unbr false d.post = d.post := by
+    have := unbr_append_noBr d.post [] hpost
+    simpa [unbr] using this
+  rw [unbr_append_noBr _ _ hpre, unbr_dotJoin_nameLevels, map_fst_zip _ _ hp, hpo]
+  · intro pl m
+    exact hparts pl.1 (List.of_mem_zip m).1
+
+/-- Scalars of different variables have different names (the variables' names contain no `[`). -/
+theorem names_injective_across (d1 d2 : Decl) (hp1 : d1.parts.length = d1.ms.length)
+    (hp2 : d2.parts.length = d2.ms.length)
+    (hb1 : NoBr d1.pre ∧ NoBr d1.post ∧ ∀ p ∈ d1.parts, NoBr p)
+    (hb2 : NoBr d2.pre ∧ NoBr d2.post ∧ ∀ p ∈ d2.parts, NoBr p)
+    (i1 i2 : List Nat) (h : d1.scalar i1 = d2.scalar i2) :
+    d1.pre ++ dotJoin d1.parts ++ d1.post = d2.pre ++ dotJoin d2.parts ++ d2.post := by
+  rw [← name_strips_to_variable d1 hp1 hb1.1 hb1.2.1 hb1.2.2 i1,
+      ← name_strips_to_variable d2 hp2 hb2.1 hb2.2.1 hb2.2.2 i2, h]
+
+-- `der(a.b.c)` with shape ((2,), (None,), (2, 3)), index (1, 0, 2)  ↦  `der(a[2].b.c[1,3])`
+example : (Decl.ofName ['d','e','r','(','a','.','b','.','c',')'] [some [2], none, some [2, 3]]).scalar [1, 0, 2]
+    = ['d','e','r','(','a','[','2',']','.','b','.','c','[','1',',','3',']',')'] := by decide
+
+example : expandDelayNames ['_','d'] [2, 1] = [['_','d','[','1',',','1',']'], ['_','d','[','2',',','1',']']] := by
+  decide
+
+/-! ## Attributes -/
+
+/-- An attribute list whose shape `ds` is the variable's iterator shape, or only its trailing
+    dimensions (the attribute was given inside the class of an array of components: iterator
+    shape `lead ++ ds`): the scalar with index tuple `idx` gets the scalar element reached with the
+    last `ds.length` indices, and no exception is raised. -/
+theorem attr_element (v : NList) (lead ds idx : List Nat) (hs : Shaped v ds)
+    (hpos : ∀ d ∈ ds, 0 < d) (hr : InRange (lead ++ ds) idx) :
+    selList v idx = v.sel (idx.drop lead.length) ∧ ∃ x, selList v idx = .ok (.leaf x) := by
+  have hdrop : ∀ (l idx : List Nat), InRange (l ++ ds) idx → InRange ds (idx.drop l.length) := by
+    intro l
+    induction l with
+    | nil => intro idx h; simpa using h
+    | cons d l ih =>
+      intro idx h
+      cases idx with
+      | nil => simp [InRange] at h
+      | cons i is => simp only [List.cons_append, InRange] at h; simpa using ih is h.2
+  have e : idx.length - v.depth = lead.length := by
+    rw [depth_shaped v ds hs hpos, inRange_length _ _ hr]; simp
+  have e' : selList v idx = v.sel (idx.drop lead.length) := by
+    simp only [selList, e]
+  exact ⟨e', by rw [e']; exact sel_shaped v ds _ hs (hdrop lead idx hr)⟩
+
+/-- the attribute has the full shape: element `idx` itself -/
+theorem attr_element_full (v : NList) (ds idx : List Nat) (hs : Shaped v ds)
+    (hpos : ∀ d ∈ ds, 0 < d) (hr : InRange ds idx) :
+    selList v idx = v.sel idx ∧ ∃ x, selList v idx = .ok (.leaf x) := by
+  have := attr_element v [] ds idx hs hpos (by simpa using hr)
+  simpa using this
+
+/-- What commit 5f5e413 fixed (DESIGN §6 row 19, finding C18-F1): applying the whole index tuple
+    made the very first scalar fail with `TypeError` as soon as there was an enclosing array level. -/
+theorem attr_inner_raised_before_fix (v : NList) (ds : List Nat) (n : Nat) (hs : Shaped v ds)
+    (hpos : ∀ d ∈ ds, 0 < d) :
+    selListFull v (List.replicate (ds.length + n + 1) 0) = .error "TypeError" := by
+  induction ds generalizing v with
+  | nil =>
+    cases v with
+    | leaf x => simp [selListFull, List.replicate, NList.sel, NList.nth]
+    | nil => simp [Shaped] at hs
+    | cons _ _ => simp [Shaped] at hs
+  | cons d ds ih =>
+    have hd : 0 < d := hpos d (by simp)
+    obtain ⟨x, hx, hsx⟩ := nth_shaped v d ds 0 hs hd
+    have : List.replicate ((d :: ds).length + n + 1) 0 = 0 :: List.replicate (ds.length + n + 1) 0 := by
+      rw [show (d :: ds).length + n + 1 = (ds.length + n + 1) + 1 by simp; omega, List.replicate_succ]
+    rw [this]
+    simp only [selListFull, NList.sel, hx]
+    exact ih x hsx (fun d m => hpos d (by simp [m]))
+
+example : Shaped (.cons (.leaf 1) (.cons (.leaf 2) (.cons (.leaf 3) .nil))) [3] ∧
+    selListFull (.cons (.leaf 1) (.cons (.leaf 2) (.cons (.leaf 3) .nil))) [0, 0] = .error "TypeError" ∧
+    selList (.cons (.leaf 1) (.cons (.leaf 2) (.cons (.leaf 3) .nil))) [1, 2] = .ok (.leaf 3) := by
+  refine ⟨⟨2, [], rfl, rfl, 1, [], rfl, rfl, 0, [], rfl, rfl, [], rfl⟩, rfl, rfl⟩
+
+/-- `value[ind]` on a DM: with the variable's shape `(r, c)` the entry `(i, j)`; a DM column of an
+    inner 1-D symbol (`lead` enclosing dimensions, `n ≠ 1` or no 2-D match) is indexed by the last index. -/
+theorem attr_element_dm (lead : List Nat) (r c i j : Nat) (hi : i < r) (hj : j < c) :
+    selDM (lead ++ [r, c]) r c (lead.map (fun _ => 0) ++ [i, j]) = .ok (i + j * r) := by
+  simp [selDM, selDMFull, hi, hj]
+
+/-! ## Outputs and delay states -/
+
+/-- An output that is an array variable is replaced, in place, by the variable's scalars in
+    creation order; other outputs are untouched. -/
+theorem outputs_renamed (l1 l2 : List (List Char)) (name : List Char) (new : List (List Char)) (h : name ∉ l1) :
+    splice (l1 ++ name :: l2) name new = l1 ++ new ++ l2 ∧
+    (∀ xs, name ∉ xs → splice xs name new = xs) :=
+  ⟨splice_at l1 l2 name new h, fun xs hx => splice_absent xs name new hx⟩
+
+/-- A delay state that is expanded is removed and its scalars (all dimensions indexed) are appended. -/
+theorem delay_renamed (xs : List (List Char)) (name : List Char) (shape : List Nat) (h : name ∈ xs) :
+    delayMove xs name (expandDelayNames name shape) = xs.erase name ++ (ndindex shape).map (fun idx => name ++ idxText idx) ∧
+    (∀ ys, name ∉ ys → delayMove ys name (expandDelayNames name shape) = ys) := by
+  refine ⟨by simp [delayMove, h, expandDelayNames], fun ys hy => by simp [delayMove, hy]⟩
+
+
+/-! ## The residual under the renaming -/
+
+/-- expressions of the unexpanded model: every symbol is declared, no packed scalars yet -/
+def Closed (ds : List Decl) : Expr → Prop
+  | .var n => ∃ d ∈ ds, d.name = n
+  | .pack _ _ _ => False
+  | .el e _ => Closed ds e
+  | .const _ => True
+  | .add a b => Closed ds a ∧ Closed ds b
+  | .sub a b => Closed ds a ∧ Closed ds b
+  | .emul a b => Closed ds a ∧ Closed ds b
+  | .smul _ a => Closed ds a
+  | .neg a => Closed ds a
+
+/-- Substituting `reshape(vertcat(scalars), reversed(shape)).T` for every array symbol and
+    evaluating at the renamed point gives the value of the original expression. -/
+theorem eval_renamed (ds : List Decl) (env : Env) (hwf : WF ds env) (e : Expr) (hc : Closed ds e) :
+    eval (renameEnv ds env) (expandE (tableOf ds) e) = eval env e := by
+  induction e with
+  | var n =>
+    obtain ⟨d, hd, hn⟩ := hc
+    subst hn
+    simp only [expandE, tableOf_decl ds env hwf d hd, Decl.entry]
+    by_cases hdim : d.dims = []
+    · simp only [hdim, if_true, eval]
+      exact renameEnv_scalar_decl ds env hwf d hd hdim
+    · simp only [hdim, if_false]
+      exact eval_pack ds env hwf d hd hdim
+  | pack r c names => exact absurd hc (by simp [Closed])
+  | el e k ih => simp only [expandE, eval, ih hc]
+  | const m => rfl
+  | add a b iha ihb => simp only [expandE, eval, iha hc.1, ihb hc.2]
+  | sub a b iha ihb => simp only [expandE, eval, iha hc.1, ihb hc.2]
+  | emul a b iha ihb => simp only [expandE, eval, iha hc.1, ihb hc.2]
+  | smul k a ih => simp only [expandE, eval, ih hc]
+  | neg a ih => simp only [expandE, eval, ih hc]
+
+/-- **The expanded residual equals the unexpanded residual under the renaming**: for well-formed
+    declarations (distinct names without brackets, one nesting level per name component) and a
+    point giving every symbol a matrix of its shape, the entries of the expanded equations
+    (`vertsplit(vec(substitute(eq)))`) evaluated at the point that assigns to each scalar name the
+    matching element are the column-major entries of the original residuals, in order. -/
+theorem residual_renamed (ds : List Decl) (env : Env) (hwf : WF ds env) (eqs : List Expr)
+    (hc : ∀ e ∈ eqs, Closed ds e) :
+    residual (renameEnv ds env) (eqs.map (expandE (tableOf ds))) = residual env eqs := by
+  induction eqs with
+  | nil => rfl
+  | cons e es ih =>
+    simp only [List.map_cons, residual, eval_renamed ds env hwf e (hc e (by simp)),
+      ih (fun e' m => hc e' (by simp [m]))]
+
+/-- the renamed point assigns to each scalar name the matching element (the hypothesis of the
+    informal statement is what `renameEnv` computes) -/
+theorem renamed_point (ds : List Decl) (env : Env) (hwf : WF ds env) (d : Decl) (hd : d ∈ ds) (hdim : d.dims ≠ [])
+    (m : IMat) (hm : env d.name = some m) (idx : List Nat) (hi : InRange d.dims idx) :
+    renameEnv ds env (d.scalar idx) = some ⟨1, 1, [m.data.getD (elemPos d.dims idx) 0]⟩ :=
+  renameEnv_elem ds env hwf d hd hdim m hm idx ((ndindex_rowmajor d.dims idx).2.2.2 hi)
+
+-- non-vacuity: `Real w[2,2]; Real z;` with `w = [[1,2],[3,4]]` (stored 1,3,2,4), `z = 5`, equation `w .* w - z`
+def exDecls : List Decl := [⟨['w'], [], [['w']], [], [some [2, 2]]⟩, ⟨['z'], [], [['z']], [], [none]⟩]
+def exEnv : Env := fun n =>
+  if n = ['w'] then some ⟨2, 2, [1, 3, 2, 4]⟩ else if n = ['z'] then some ⟨1, 1, [5]⟩ else none
+
+example : WF exDecls exEnv ∧ Closed exDecls (.sub (.emul (.var ['w']) (.var ['w'])) (.var ['z'])) ∧
+    residual (renameEnv exDecls exEnv)
+      [expandE (tableOf exDecls) (.sub (.emul (.var ['w']) (.var ['w'])) (.var ['z']))] = some [-4, 4, -1, 11] := by
+  refine ⟨⟨?_, ?_, ?_, ?_, ?_⟩, ?_, by decide⟩
+  · intro d1 h1 d2 h2 e
+    simp only [exDecls, List.mem_cons, List.mem_nil_iff, or_false] at h1 h2
+    rcases h1 with rfl | rfl <;> rcases h2 with rfl | rfl <;> simp_all
+  · intro d h
+    simp only [exDecls, List.mem_cons, List.mem_nil_iff, or_false] at h
+    rcases h with rfl | rfl <;> rfl
+  · intro d h
+    simp only [exDecls, List.mem_cons, List.mem_nil_iff, or_false] at h
+    rcases h with rfl | rfl <;> rfl
+  · intro d h
+    simp only [exDecls, List.mem_cons, List.mem_nil_iff, or_false] at h
+    rcases h with rfl | rfl <;> simp [NoBr]
+  · intro d h
+    simp only [exDecls, List.mem_cons, List.mem_nil_iff, or_false] at h
+    rcases h with rfl | rfl
+    · exact ⟨⟨2, 2, [1, 3, 2, 4]⟩, by decide, by decide, by decide, by decide⟩
+    · exact ⟨⟨1, 1, [5]⟩, by decide, by decide, by decide, by decide⟩
+  · have hw : (⟨['w'], [], [['w']], [], [some [2, 2]]⟩ : Decl) ∈ exDecls := by simp [exDecls]
+    have hz : (⟨['z'], [], [['z']], [], [none]⟩ : Decl) ∈ exDecls := by simp [exDecls]
+    exact ⟨⟨⟨_, hw, rfl⟩, ⟨_, hw, rfl⟩⟩, ⟨_, hz, rfl⟩⟩
+
+end PymocaVerif.VecExpand
